@@ -16,6 +16,7 @@ import (
 	apierrors "k8s.io/apimachinery/pkg/api/errors"
 	metav1 "k8s.io/apimachinery/pkg/apis/meta/v1"
 	"k8s.io/apimachinery/pkg/runtime"
+	"k8s.io/apimachinery/pkg/runtime/schema"
 	"k8s.io/apimachinery/pkg/watch"
 )
 
@@ -138,6 +139,7 @@ type Server struct {
 	MaxInflight   int
 	InflightWatch int
 	HoldFirstList chan struct{} // if non-nil the first list waits for this channel (C08)
+	uids          int
 	Reuse         bool // one live object per key, mutated in place and re-sent by pointer
 	live          map[string]runtime.Object
 	FailFirstKind string // how the held first list fails (a list-script kind; "" = plain error)
@@ -185,7 +187,16 @@ func (s *Server) Apply(o Spec) Spec {
 	s.rv++
 	o = o.Clone()
 	o.RV = strconv.Itoa(s.rv)
-	_, existed := s.objs[o.Key()]
+	prev, existed := s.objs[o.Key()]
+	if o.UID == "" {
+		// one uid per incarnation: kept across updates, new after delete + create
+		if existed {
+			o.UID = prev.UID
+		} else {
+			s.uids++
+			o.UID = "uid-" + strconv.Itoa(s.uids)
+		}
+	}
 	s.objs[o.Key()] = o
 	if existed {
 		s.appendLog(watch.Modified, o)
@@ -516,6 +527,29 @@ func (s *Server) Watch(ctx context.Context, opts metav1.ListOptions) (watch.Inte
 		call.Outcome = "connect-timeout"
 		call.Ended = true
 		return nil, &url.Error{Op: "Get", URL: "https://apiserver/watch", Err: context.DeadlineExceeded}
+	}
+	if s.F.Roll("watch-connect-api-error") {
+		// the API server answers the watch request with an error status: never
+		// fatal, whatever the status says
+		call.Outcome = "connect-api-error"
+		call.Ended = true
+		gr := schema.GroupResource{Resource: s.Kind + "s"}
+		switch detsim.Choose("api-error-kind", 7) {
+		case 0:
+			return nil, apierrors.NewForbidden(gr, "", errors.New("injected: forbidden"))
+		case 1:
+			return nil, apierrors.NewUnauthorized("injected: unauthorized")
+		case 2:
+			return nil, apierrors.NewInternalError(errors.New("injected: internal error"))
+		case 3:
+			return nil, apierrors.NewTooManyRequests("injected: slow down", 1)
+		case 4:
+			return nil, apierrors.NewServiceUnavailable("injected: unavailable")
+		case 5:
+			return nil, apierrors.NewNotFound(gr, "")
+		default:
+			return nil, apierrors.NewBadRequest("injected: bad request")
+		}
 	}
 	if s.F.Roll("watch-connect-canceled-error") {
 		call.Outcome = "connect-canceled-error"
